@@ -5,6 +5,7 @@ import (
 	"io"
 	"log/slog"
 	"os"
+	"strings"
 	"testing"
 	"time"
 
@@ -169,6 +170,26 @@ func genC19(t *rapid.T) c19Case {
 		lists[i].File = true
 	}
 	c := c19Case{Lists: lists}
+	if chance(t, "mass-block", 20) {
+		// one query materialises more than 1024 rules (they share one shortcut window)
+		var sb strings.Builder
+		for i := 0; i < 1100; i++ {
+			fmt.Fprintf(&sb, "adsa6^$ctag=~t%d\n", i)
+		}
+		massID := 424242
+		for _, l := range c.Lists {
+			if l.ID == massID {
+				massID++
+			}
+		}
+		c.Lists = append(c.Lists, ListSpec{ID: massID, Text: sb.String(), File: true})
+		c.Queries = append(c.Queries, Q{URL: "http://x.com/adsa6", Typ: "script"}, Q{URL: "http://x.com/q?adsa6", Typ: "image"})
+	}
+	if chance(t, "domain-walk", 3) {
+		// the second query walks from a bucket loaded by the first one into one that is not loaded yet
+		c.Queries = append(c.Queries, Q{URL: "http://x.com/ab", Src: "http://example.org/", Typ: "script"},
+			Q{URL: "http://x.com/ab", Src: "http://sub.example.org/", Typ: "script"})
+	}
 	n := rapid.IntRange(3, 12).Draw(t, "nqueries")
 	for len(c.Queries) < n {
 		if len(c.Queries) > 0 && chance(t, "repeat", 3) {
